@@ -87,6 +87,8 @@ pub fn run(env: &Env, run: &Run) -> (Stats, Coverage) {
     // ASCII strings (two fillers), alphabet symbols alone and in pairs inside 16..41-byte ASCII strings,
     // all of them at every address residue modulo 8 / 16 (sub-slices of a larger buffer)
     st.merge(run_structural(&sigma, run.tier, |s, st| visit(env, s, st)));
+    let dfam = crate::props::rules::decomposition_family(env);
+    st.merge(run_family(&dfam, |s, st| visit(env, s, st)));
     let max_rounds = (1..=4).rev().find(|r| st.counters.get(&format!("rounds:{}", r)).copied().unwrap_or(0) > 0).unwrap_or(0);
     st.sample(json!({"input": ["U+00A8", "a"], "expected": "round 1: NFKC gives ' ' U+0308 a; round 2 trims the space: 'U+0308 a'; round 3 confirms"}));
     st.sample(json!({"input": ["U+00E9", " ", " ", "b"], "expected": "Ok(\"U+00E9 b\") - interior run collapses to one space next to a 2-byte character"}));
